@@ -198,6 +198,8 @@ func (w *brWorld) history(nops int) {
 	voted := func() uint64 { t, _ := w.e.Bitcoin.BlockTip.Peek(w.e.Ctx); return t }
 	srv := w.msgSrvB()
 	w.thresholdTable()
+	var matureDep, forceDep *pendingDeposit
+	matureBudget := 0
 
 	mine := func() {
 		h := w.mined + 1
@@ -249,6 +251,11 @@ func (w *brWorld) history(nops int) {
 		if cbDep != nil {
 			cbDep.height, cbDep.index = h, 0
 			minedDeps = append(minedDeps, cbDep)
+			if lone && matureDep == nil && r.Chance(60) {
+				// let this coinbase deposit mature: 100 more blocks get mined and voted, then it is submitted
+				matureDep, matureBudget = cbDep, 20
+				w.st.Count("coinbase-deposit-taken-to-maturity")
+			}
 		}
 		for _, d := range placed {
 			d.height = h
@@ -268,6 +275,21 @@ func (w *brWorld) history(nops int) {
 	for step := 0; step < nops; step++ {
 		w.e.Ctx = w.e.Ctx.WithBlockHeight(w.height).WithBlockTime(w.now)
 		choice := r.Intn(100)
+		if matureDep != nil {
+			switch {
+			case voted() >= matureDep.height+100:
+				forceDep, matureDep = matureDep, nil
+				choice = 30 // submit it now
+			case matureBudget == 0:
+				matureDep = nil
+			default:
+				matureBudget--
+				for w.mined < voted()+16 {
+					mine()
+				}
+				choice = 0 // vote the next batch of block hashes
+			}
+		}
 		switch {
 		// ------------------------------------------------ new block hashes
 		case choice < 14:
@@ -364,7 +386,7 @@ func (w *brWorld) history(nops int) {
 					magic = []byte("XXXX")
 				}
 				pay := scriptP2WPKH(key.H160)
-				if r.Chance(8) {
+				if r.Chance(20) {
 					var how string
 					pay, how = nearMiss(r, pay)
 					w.st.Count("deposit-output-near-miss:" + how)
@@ -396,6 +418,10 @@ func (w *brWorld) history(nops int) {
 			var picked []*pendingDeposit
 			for i := 0; i < nd; i++ {
 				d := minedDeps[r.Intn(len(minedDeps))]
+				if i == 0 && forceDep != nil {
+					d, forceDep = forceDep, nil
+					w.st.Count("matured-coinbase-deposit-submitted")
+				}
 				if i > 0 && r.Chance(25) {
 					d = picked[0] // duplicate inside the batch
 				}
@@ -593,7 +619,7 @@ func (w *brWorld) history(nops int) {
 			}
 			pw := pickProc(r, wdProc)
 			bump := uint64(1 + r.Intn(300))
-			if r.Chance(10) {
+			if r.Chance(22) {
 				bump = 0
 			}
 			tx, fee := w.buildPayout(pw.ids, r.Chance(50), w.procFee(pw.pid)+bump)
